@@ -13,6 +13,11 @@ const (
 	cOK         cstat = iota // Go has a conversion; the value is given
 	cNone                    // Go has no conversion: the call must fail with an error
 	cUnasserted              // the statement is silent for this cell; nothing is asserted
+	// cEither: Go has no conversion (the strict reading of the statement asks for an error) but the
+	// code documents a special case for it (a one-character string for a byte / rune). The two
+	// readings are both admitted and nothing else is: the call fails with an error, or the value
+	// given here arrives.
+	cEither
 )
 
 // whyNilPtr marks the shape of a reported host panic (nil pointer passed where another
@@ -24,7 +29,7 @@ const whyNilPtr = "nil pointer re-typing"
 // d32215c; now the shape is executed and only "no panic" is asserted for it.
 const knownNilPtrPanic = false
 
-var stName = []string{" ok", " none", " unasserted"}
+var stName = []string{" ok", " none", " unasserted", " either"}
 
 // convRes is the result of goConvert.
 type convRes struct {
@@ -52,8 +57,9 @@ type convRes struct {
 //	value -> error            -> only when the dynamic type implements error
 //	anything else             -> no conversion
 //
-// Unasserted cells (statement silent, code special-cases): string -> byte/rune,
-// pointer vs non-pointer and pointer-to-pointer re-typing, float outside the target
+// string -> byte/rune: see convStrChar (error for several characters, "error or that
+// character" for one). Unasserted cells (statement silent, code special-cases): the empty and
+// the non-UTF-8 string -> byte/rune, pointer vs non-pointer and pointer-to-pointer re-typing, float outside the target
 // integer range, integer -> float32 where single and double rounding differ, maps whose
 // converted keys collide.
 func goConvert(v reflect.Value, T reflect.Type) convRes {
@@ -115,7 +121,7 @@ func goConvert(v reflect.Value, T reflect.Type) convRes {
 		out.SetString(v.String())
 		return convRes{st: cOK, v: out, cell: cell}
 	case sk == reflect.String && (T == reflect.TypeOf(uint8(0)) || T == reflect.TypeOf(int32(0))):
-		return unas("string to byte/rune")
+		return convStrChar(v.String(), T, cell)
 	case sk == reflect.String && tk == reflect.Slice && T.Elem().Kind() == reflect.Uint8 && T.Elem().PkgPath() == "":
 		bs := []byte(v.String())
 		out := reflect.MakeSlice(T, len(bs), len(bs))
@@ -170,14 +176,19 @@ func goConvert(v reflect.Value, T reflect.Type) convRes {
 				return none("element: " + r.why)
 			case cUnasserted:
 				st, why = cUnasserted, "element: "+r.why
+			case cEither:
+				if st == cOK {
+					st, why = cEither, "element: "+r.why
+				}
+				out.Index(i).Set(r.v)
 			default:
 				out.Index(i).Set(r.v)
 			}
 		}
-		if st != cOK {
+		if st == cUnasserted {
 			return unas(why)
 		}
-		return convRes{st: cOK, v: out, loose: true, cell: cell, sub: sub}
+		return convRes{st: st, v: out, loose: true, cell: cell, sub: sub, why: why}
 	case sk == reflect.Map && tk == reflect.Map:
 		out := reflect.MakeMap(T)
 		st := cOK
@@ -200,9 +211,12 @@ func goConvert(v reflect.Value, T reflect.Type) convRes {
 				st, why = cUnasserted, "key: "+rk.why
 				continue
 			}
-			if rv.st == cUnasserted {
-				st, why = cUnasserted, "value: "+rv.why
+			if rv.st == cUnasserted || rk.st == cEither {
+				st, why = cUnasserted, "value: "+rv.why+rk.why
 				continue
+			}
+			if rv.st == cEither && st == cOK {
+				st, why = cEither, "value: "+rv.why
 			}
 			if rk.v.Kind() == reflect.Interface && !rk.v.IsNil() && !rk.v.Elem().Type().Comparable() {
 				return unas("unhashable key")
@@ -216,12 +230,48 @@ func goConvert(v reflect.Value, T reflect.Type) convRes {
 			}
 			out.SetMapIndex(rk.v, rv.v)
 		}
-		if st != cOK {
+		if st == cUnasserted {
 			return unas(why)
 		}
-		return convRes{st: cOK, v: out, loose: true, cell: cell, sub: sub}
+		return convRes{st: st, v: out, loose: true, cell: cell, sub: sub, why: why}
 	}
 	return none("no Go conversion from " + vt.String() + " to " + T.String())
+}
+
+// whyOneChar is the reason text of the cEither cell.
+const whyOneChar = "one-character string to byte/rune"
+
+// convStrChar is the cell string -> byte / rune (T is exactly uint8 or int32). Go has no such
+// conversion, so by the statement the call fails with an error; the code documents one special
+// case, "a one-character string gives that character". What is asserted:
+//
+//	""                                        nothing (the code passes the zero value; statement silent)
+//	not valid UTF-8                           nothing (which "character" is meant is open)
+//	two or more characters                    no conversion under either reading: error
+//	one character, rune target                error, or the character as Go decodes it ([]rune(s)[0])
+//	one ASCII character, byte target          error, or that byte
+//	one non-ASCII character, byte target      nothing (the character does not fit a byte as such)
+func convStrChar(s string, T reflect.Type, cell string) convRes {
+	if s == "" {
+		return convRes{st: cUnasserted, why: "empty string to byte/rune", cell: cell}
+	}
+	if !utf8.ValidString(s) {
+		return convRes{st: cUnasserted, why: "string to byte/rune, not UTF-8", cell: cell}
+	}
+	rs := []rune(s)
+	if len(rs) >= 2 {
+		return convRes{st: cNone, why: "no Go conversion from a string of several characters to " + T.String(), cell: cell}
+	}
+	out := reflect.New(T).Elem()
+	if T.Kind() == reflect.Int32 {
+		out.SetInt(int64(rs[0]))
+		return convRes{st: cEither, v: out, why: whyOneChar, cell: cell}
+	}
+	if rs[0] < utf8.RuneSelf {
+		out.SetUint(uint64(byte(rs[0])))
+		return convRes{st: cEither, v: out, why: whyOneChar, cell: cell}
+	}
+	return convRes{st: cUnasserted, why: "one non-ASCII character to byte", cell: cell}
 }
 
 func isHashableVal(v reflect.Value) bool {
